@@ -10,7 +10,8 @@ READY = True
 THEOREMS = [
     "C12.marks", "C12.resize_exact", "C12.fit_exact", "C12.blanks_are_blanks", "C12.width_bounds", "C12.rectangular", "C12.separators",
     "C12.cell_content", "C12.cell_default", "C12.full_when_fits", "C12.title_content", "C12.limits",
-    "C12.print_twice", "C12.interleaved", "C12.fmt_obj_same", "C12.ctor_options", "C12.widths_faithful",
+    "C12.print_twice", "C12.interleaved", "C12.fmt_obj_same", "C12.ctor_options", "C12.fmt_obj_ignores_printing", "C12.field_positions",
+    "C12.setter_bounds", "C12.ctor_bounds", "C12.widths_faithful",
 ]
 
 
@@ -295,9 +296,15 @@ def encode(desc):
     else:
         out += ["F", str(len(desc["fields"]))]
         for f in desc["fields"]:
+            if f.get("pos") is not None:
+                out.append("O%d" % f["pos"])       # a ready RecordField object with its own value position
             out.append(enc_str(f["name"]))
             e = f.get("enum")
-            if e is None:
+            cu = f.get("custom")
+            if cu is not None:
+                out += ["C", str(cu["min"]), str(cu["max"]), str(cu["align"]), enc_str(cu["tag"]), str(len(cu["banned"]))]
+                out += [enc_str(b) for b in cu["banned"]]
+            elif e is None:
                 out.append("D")
             else:
                 out += ["E", str(len(e["keys"]))]
@@ -353,12 +360,23 @@ def decode(toks):
     kw = {}
     f = p.tok()
     if f == "F":
+        from ak.ppobj import RecordField, FieldType
         names, types, titles = [], {}, {}
         for _ in range(int(p.tok())):
-            name = dec_str(p.tok())
+            t0 = p.tok()
+            objpos = None
+            if t0.startswith("O"):
+                objpos = int(t0[1:])
+                t0 = p.tok()
+            name = dec_str(t0)
             names.append(name)
             ft = p.tok()
-            if ft == "E":
+            ftobj = None
+            if ft == "C":
+                mn, mx, al, tag = int(p.tok()), int(p.tok()), int(p.tok()), dec_str(p.tok())
+                banned = [dec_str(p.tok()) for _ in range(int(p.tok()))]
+                ftobj = make_custom_type(mn, mx, al, tag, banned)
+            elif ft == "E":
                 d = {}
                 for i in range(int(p.tok())):
                     k = dec_val(p.tok())
@@ -367,16 +385,24 @@ def decode(toks):
                 s = p.tok()
                 if s != "S-":
                     d[PPEnumFieldType.MISSING] = (dec_str(p.tok()), "error")
-                types[name] = PPEnumFieldType(d)
+                ftobj = PPEnumFieldType(d)
             elif ft != "D":
                 raise ValueError(ft)
             t = p.tok()
+            title = None
             if t == "TS":
-                titles[name] = dec_str(p.tok())
+                title = dec_str(p.tok())
             elif t == "TL":
-                titles[name] = [dec_val(p.tok()) for _ in range(int(p.tok()))]
+                title = [dec_val(p.tok()) for _ in range(int(p.tok()))]
             elif t != "TN":
                 raise ValueError(t)
+            if objpos is not None:
+                names[-1] = RecordField(name, ftobj if ftobj is not None else FieldType(), objpos, title)
+            else:
+                if ftobj is not None:
+                    types[name] = ftobj
+                if title is not None:
+                    titles[name] = title
         kw["fields"] = names
         if types:
             kw["fields_types"] = types
@@ -401,6 +427,29 @@ def decode(toks):
     if p.i != len(toks):
         raise ValueError("trailing tokens")
     return records, kw
+
+
+_CUSTOM_CACHE = {}
+
+
+def make_custom_type(mn, mx, al, tag, banned):
+    """a user-written FieldType (the documented extension point): own width bounds, fixed alignment (centre
+    included), free-text modifiers (all but the banned ones), cell text = tag + str(value) [+ '~' + modifier]"""
+    from ak import ppobj
+
+    class Custom(ppobj.FieldType):
+        def __init__(self):
+            super().__init__(mn, mx)
+
+        def make_desired_cell_ch_chunks(self, value, fmt_modifier, cp):
+            text = tag + str(value) + ("~" + fmt_modifier if fmt_modifier is not None else "")
+            return [cp.text(text)], al
+
+        def is_fmt_modifier_ok(self, fmt_modifier):
+            if fmt_modifier in banned:
+                return False, "modifier %r is not accepted" % (fmt_modifier,)
+            return True, ""
+    return Custom()
 
 
 def build_table(toks):
@@ -530,6 +579,13 @@ def impl(case):
                 out.append("ok " + show_lines(render_lines(build_from_fmt_obj(args[0], args[1], args[2:]))))
             elif op == "ilv":
                 out.append(run_interleaved(args))
+            elif op == "tset":
+                spec, fmt = split_at(args[1:])
+                t = build_table(spec)
+                if args[0] == "1":
+                    render_lines(t)
+                t.fmt = dec_str(fmt[0])
+                out.append("ok " + show_lines(render_lines(t)))
             elif op == "fit":
                 chunks, cp = _fit_args(args[2:])
                 out.append("ok " + show_chunks(FieldType.fit_to_width(chunks, int(args[0]), int(args[1]), cp)))
@@ -545,14 +601,18 @@ def impl(case):
 
 def observable(i, line):
     # `fit` / `resize` lines exercise internal helpers directly: diagnostics only
-    return line.split(" ", 1)[0] in ("tbl", "obj", "ilv")
+    return line.split(" ", 1)[0] in ("tbl", "obj", "ilv", "tset")
 
 
 # ------------------------------------------------------------------ oracle: the property itself
 def spec_fit(text, w, right=False):
-    """the documented behaviour of a cell: padded to the width, or a prefix ending in dots"""
+    """the documented behaviour of a cell: padded to the width (right: True / False / "c" for centred),
+    or a prefix ending in dots"""
     if len(text) <= w:
-        return " " * (w - len(text)) + text if right else text + " " * (w - len(text))
+        fill = w - len(text)
+        if right == "c":
+            return " " * (fill // 2) + text + " " * (fill - fill // 2)
+        return " " * fill + text if right else text + " " * fill
     dots = min(3, w)
     return text[:w - dots] + "." * dots
 
@@ -576,6 +636,9 @@ def spec_title_lines(field):
 def spec_cell_options(field, mod, v):
     """acceptable desired texts of a cell, with alignment: [(text, right?)]"""
     e = field.get("enum")
+    cu = field.get("custom")
+    if cu is not None:
+        return [(cu["tag"] + str(v) + ("~" + mod if mod is not None else ""), {1: False, 2: "c", 3: True}[cu["align"]])]
     if e is None:
         return [(str(v), _is_right(v))]
     if v is None and not any(k is None for k, _ in e["keys"]):
@@ -602,19 +665,26 @@ def _fields(desc):
     return desc["fields"] if desc.get("fields") is not None else desc["oracle_fields"]
 
 
+def field_positions(desc):
+    """name -> index of the field's value in a record: the position in `fields`, or the RecordField's own"""
+    return {f["name"]: (f["pos"] if f.get("pos") is not None else i) for i, f in enumerate(_fields(desc))}
+
+
 def visible_columns(desc):
     """[(field, modifier, break_by, min, max)] as the user asked for them; None if not known"""
     fields = _fields(desc)
     cols = desc.get("cols")
+    def bounds(f):
+        return (f["custom"]["min"], f["custom"]["max"]) if f.get("custom") else (1, 999)
     if cols is None:
-        res = [(f, None, False, 1, 999) for f in fields]
+        res = [(f, None, False) + bounds(f) for f in fields]
     else:
         byname = {f["name"]: f for f in fields}
         res = []
         for c in cols:
             if c["w"] == "hidden":
                 continue
-            lo, hi = (1, 999) if c["w"] is None else c["w"]
+            lo, hi = bounds(byname[c["f"]]) if c["w"] is None else c["w"]
             res.append((byname[c["f"]], c.get("mod"), c.get("brk", False), lo, hi))
     skip = desc.get("skip") or []
     return [c for c in res if c[0]["name"] not in skip]
@@ -632,7 +702,7 @@ def effective_limits(desc):
 def spec_body(desc, cols):
     """expected body: records (lists), None for a break line, "skip" for the skipped-records line; and the number
     the skipped line has to announce"""
-    pos = {f["name"]: i for i, f in enumerate(_fields(desc))}
+    pos = field_positions(desc)
     records = desc["records"]
     body, prev = [], None
     bpos = [pos[c[0]["name"]] for c in cols if c[2]]
@@ -679,7 +749,7 @@ def oracle_table(desc, rep):
         if c[3] <= c[4] and not c[3] <= w <= c[4]:
             return "width-bounds: column %d is %d wide, configured %d-%d" % (j, w, c[3], c[4])
     # expected lay-out
-    pos = {f["name"]: i for i, f in enumerate(_fields(desc))}
+    pos = field_positions(desc)
     records = desc["records"]
     exp = [("border", border)]
     if desc.get("header"):
@@ -730,14 +800,15 @@ def oracle(case, replies):
     desc = case.get("desc")
     for line, rep in zip(case["lines"], replies):
         op, *args = line.split()
-        if op == "obj":
-            # a table built from a format object: the columns of the donor, its limits unless given anew
+        if op in ("obj", "tset"):
+            # a table built from a format object: the columns of the donor, its limits unless given anew;
+            # a table re-formatted through the setter: the new columns and bounds, the new limits or the old ones
             d2 = case.get("desc2")
             if d2 is None or not d2.get("valid"):
                 continue
             msg = oracle_table(d2, rep)
             if msg:
-                return "fmt_obj-" + msg
+                return ("fmt_obj-" if op == "obj" else "setter-") + msg
         elif op == "ilv":
             descs = case.get("descs")
             if descs is None or not all(d.get("valid") for d in descs):
@@ -896,6 +967,15 @@ def col_str(rng, c, plain=False):
     return s
 
 
+def gen_col(rng, f):
+    mod = None
+    if f.get("enum") is not None and rng.random() < 0.75:
+        mod = rng.choice(["full", "val", "name"])
+    if f.get("custom") is not None and rng.random() < 0.6:
+        mod = rng.choice(_MODIFIERS)
+    return {"f": f["name"], "mod": mod, "brk": rng.random() < 0.3, "w": gen_width(rng)}
+
+
 def fmt_str(rng, cols, fmt_limits, plain=False):
     s = ",".join(col_str(rng, c, plain) for c in cols) if cols is not None else rng.choice(["", "*"])
     if fmt_limits is None:
@@ -908,12 +988,35 @@ def fmt_str(rng, cols, fmt_limits, plain=False):
     return s + ";%d:%d" % (a, b)
 
 
+_MODIFIERS = ["x", "%d/%m/%Y", "a/b", "/", "k=v", "(1)", " lead", "m.n", "", "%H.%M", "a/b/c(2)", "é"]
+
+
+def gen_custom(rng):
+    """a user-written field type: bounds, alignment (1 left, 2 centre, 3 right), tag, rejected modifiers"""
+    mn, mx = rng.choice([(1, 999), (1, 999), (0, 6), (3, 3), (2, 12), (0, 0), (5, 40)])
+    return {"min": mn, "max": mx, "align": rng.choice([1, 2, 2, 3]), "tag": rng.choice(["", "", "#", "<>"]),
+            "banned": rng.choice([[], ["bad"], ["bad", "jInXedText"]])}
+
+
 def gen_desc(rng, big=False):
     nf = rng.choice([1, 2, 2, 3, 3, 4])
     names = rng.sample(_NAMES, nf)
     fields = [{"name": n, "enum": None, "title": gen_title(rng, n)} for n in names]
     if rng.random() < 0.4:
         rng.choice(fields)["enum"] = gen_enum(rng)
+    if rng.random() < 0.3:
+        f = rng.choice(fields)
+        if f["enum"] is None:
+            f["custom"] = gen_custom(rng)
+    if rng.random() < 0.3:
+        # some (or all) elements of `fields` are ready RecordField objects, at any place of the list, each
+        # knowing its own value position (which need not be its place in the list)
+        perm = list(range(nf))
+        if rng.random() < 0.5:
+            rng.shuffle(perm)
+        for i, f in enumerate(fields):
+            if rng.random() < 0.5:
+                f["pos"] = perm[i]
     profiles = [rng.choice("iiIssnbf") for _ in fields]
     fmt_limits = rng.choice([None, None, None, "*", [rng.randint(0, 4), rng.randint(0, 4)],
                              [rng.randint(0, 4), rng.randint(0, 4)]])
@@ -939,11 +1042,7 @@ def gen_desc(rng, big=False):
     if rng.random() < 0.85:
         cols = []
         for _ in range(rng.choice([1, 1, 2, 2, 3, 3, 4, 4, 6] if big else [1, 2, 2, 3, 3, 4])):
-            f = rng.choice(fields)
-            mod = None
-            if f["enum"] is not None and rng.random() < 0.75:
-                mod = rng.choice(["full", "val", "name"])
-            cols.append({"f": f["name"], "mod": mod, "brk": rng.random() < 0.3, "w": gen_width(rng)})
+            cols.append(gen_col(rng, rng.choice(fields)))
         if rng.random() < 0.1:
             cols.insert(rng.randint(0, len(cols)), {"f": rng.choice(names), "mod": None, "brk": rng.random() < 0.3,
                                                     "w": "hidden"})
@@ -1076,6 +1175,30 @@ def gen_obj_case(rng):
     return mk_obj_case(rng, donor, 1 if rng.random() < 0.5 else 0, via, second)
 
 
+def mk_tset_case(rng, desc, pf, cols, lim, kind="setter"):
+    """`table.fmt = <format>` on a built (and maybe printed) table, then print: the new columns, bounds and limits
+    must be honoured exactly as if they had been given to the constructor"""
+    fmt = fmt_str(rng, cols, lim)
+    old = effective_limits(desc)
+    d2 = {"valid": bool(desc.get("valid")), "fields": desc["fields"], "cols": cols, "records": desc["records"],
+          "header": desc.get("header"), "footer": desc.get("footer"), "fmt_limits": None, "skip": None,
+          "limits": list(old) if lim is None else ([None, None] if lim == "*" else list(lim))}
+    line = "tset %d %s @ %s" % (pf, encode(desc), enc_str(fmt))
+    return {"lines": [line], "desc2": d2, "base": desc, "pf": pf, "newcols": cols, "newlim": lim, "meta": {"kind": kind}}
+
+
+def gen_tset_case(rng):
+    desc = gen_desc(rng)
+    desc["skip"] = None
+    cols = [gen_col(rng, rng.choice(desc["fields"])) for _ in range(rng.choice([1, 2, 2, 3, 4]))]
+    for c in cols:                      # zero and min=max bounds are the point of this route
+        if rng.random() < 0.5:
+            w = rng.choice([0, 0, 0, 1, 2, 5])
+            c["w"] = rng.choice([[w, w], [0, w], [0, 0]])
+    lim = rng.choice([None, None, "*", [rng.randint(0, 4), rng.randint(0, 4)]])
+    return mk_tset_case(rng, desc, 1 if rng.random() < 0.5 else 0, cols, lim)
+
+
 def mk_ilv_case(descs, iters, sched, kind="interleaved"):
     line = "ilv " + " @ ".join(encode(d) for d in descs) + " @ " + " ".join(map(str, iters)) + " @ " + \
         " ".join(map(str, sched))
@@ -1131,6 +1254,8 @@ def gen_cases(rng, tier):
         yield gen_obj_case(rng)
     for _ in range(400 if quick else 8000):
         yield gen_ilv_case(rng)
+    for _ in range(500 if quick else 10000):
+        yield gen_tset_case(rng)
     # helpers, directly
     for _ in range(600 if quick else 20000):
         chunks = [gen_text(rng, 6) for _ in range(rng.randint(0, 4))]
@@ -1212,7 +1337,32 @@ def _shrink_ilv(case):
             yield mk_ilv_case(descs[:k] + [small["desc"]] + descs[k + 1:], iters, sched)
 
 
+def _shrink_tset(case):
+    import copy
+    rng = random.Random(0)
+    base, cols = case["base"], case["newcols"]
+    for i in range(len(base["records"])):
+        b = copy.deepcopy(base)
+        del b["records"][i]
+        yield mk_tset_case(rng, b, case["pf"], cols, case["newlim"])
+    if len(cols) > 1:
+        for i in range(len(cols)):
+            yield mk_tset_case(rng, base, case["pf"], cols[:i] + cols[i + 1:], case["newlim"])
+    if case["pf"]:
+        yield mk_tset_case(rng, base, 0, cols, case["newlim"])
+    if case["newlim"] is not None:
+        yield mk_tset_case(rng, base, case["pf"], cols, None)
+    for key in ("header", "footer", "limits"):
+        if base.get(key) is not None:
+            b = copy.deepcopy(base)
+            b[key] = None
+            yield mk_tset_case(rng, b, case["pf"], cols, case["newlim"])
+
+
 def shrink(case):
+    if "newcols" in case:
+        yield from _shrink_tset(case)
+        return
     if "donor" in case:
         yield from _shrink_obj(case)
         return
@@ -1275,6 +1425,25 @@ def tags(case, replies):
     yield kind
     rep = replies[0]
     yield "reply:" + (rep.split()[0] + (":" + rep.split()[1] if rep.startswith("err") else ""))
+    for d in ([case.get("desc")] if case.get("desc") else []) + list(case.get("descs") or []) + \
+            ([case["donor"]] if "donor" in case else []) + ([case["base"]] if "base" in case else []):
+        fs = d.get("fields") or []
+        if any(f.get("custom") for f in fs):
+            yield "feature:custom-field-type"
+            if any(f["custom"]["align"] == 2 for f in fs if f.get("custom")):
+                yield "feature:centre-aligned-type"
+        if any(f.get("pos") is not None for f in fs):
+            yield "feature:fields-mix-objects-and-names" if any(f.get("pos") is None for f in fs) else \
+                "feature:fields-all-objects"
+        if any("/" in (c.get("mod") or "") for c in (d.get("cols") or [])):
+            yield "feature:modifier-with-slash"
+    if "newcols" in case:
+        yield "setter:" + ("printed-table" if case["pf"] else "fresh-table")
+        if any(c["w"] not in (None, "hidden") and c["w"][1] == 0 for c in case["newcols"]):
+            yield "setter:zero-width-bound"
+        if any(c["w"] not in (None, "hidden") and c["w"][0] == c["w"][1] for c in case["newcols"]):
+            yield "setter:min=max"
+        return
     if "donor" in case:
         yield "fmt_obj:" + ("made-directly" if case["via"] else ("of-printed-table" if case["pf"] else "of-fresh-table"))
         d2 = case["desc2"]
@@ -1332,7 +1501,9 @@ RULE = ("tables: 1-4 fields (one of them an enum in 40%), 0-12 records of mixed 
         "columns with repeats, fixed/ranged/zero/default widths, hidden columns, break-by, all enum modifiers with "
         "known/unknown/None values and values equal to a key or to each other but printed differently (1/True/1.0), "
         "multi-line titles, long headers/footers, limits 0-4 in the format and/or the `limits` argument, decorated "
-        "format strings; field-less tables; malformed formats/fields/records; tables built with fmt_obj= (format "
+        "format strings; user-written field types (own bounds, left/centre/right, free-text modifiers incl. '/'); "
+        "`fields` mixing names and RecordField objects with own positions; `table.fmt = <format>` on a fresh or "
+        "printed table (zero and min=max bounds) then print; field-less tables; malformed formats/fields/records; tables built with fmt_obj= (format "
         "of another fresh/printed table or PPTableFormat.make, mostly asymmetric limits, other records); 2-4 line "
         "iterators over 1-3 tables (also two over one table) advanced in a random or zip-like interleaving, each "
         "judged against its own table; fit_to_width/resize_chunks_list "
@@ -1359,7 +1530,12 @@ LEVEL_TEXT = ("Kernel-checked for all tables of the model (any records, columns,
               "(print_twice), interleaved line iterators over several tables each yield their own table's lines "
               "(interleaved); a table built with fmt_obj= from another table's format and the same records prints the "
               "same, both limits included, and limits=/skip_columns= act as given (fmt_obj_same, ctor_options, "
-              "widths_faithful). Model = code rests on the differential run (all rendered lines compared exactly, also "
+              "widths_faithful) and is the same table whether or not the donor had been printed "
+              "(fmt_obj_ignores_printing: siblings from one format object share nothing); a name at index i of "
+              "fields=[...] reads record[i] whatever precedes it, a RecordField object keeps its own position "
+              "(field_positions); bounds written in a format - zero included - are the column's bounds through the "
+              "setter and through the constructor, the field type's own bounds otherwise (setter_bounds, ctor_bounds). "
+              "User-written field types (own bounds, centre alignment, free-text modifiers) are part of the model. Model = code rests on the differential run (all rendered lines compared exactly, also "
               "per iterator and for fmt_obj tables).")
 LEVEL_NOTE = ("Trusted: Lean kernel, translator (constants of ak/ppobj.py regenerated on each run: dots, border marks, "
               "default widths, texts; C08's constants for the CHText chunk operations), adapter/wire format in "
